@@ -1,28 +1,472 @@
 package c12
 
 import (
-	"fmt"
+	"encoding/json"
 	"net/http"
+	"net/url"
 	"strconv"
 	"strings"
+	"unicode/utf8"
 
 	"github.com/google/martian/v3/proxyutil"
+
+	"verif/harness/internal/core"
 )
 
-// cond is one filter condition of the pool: the registered filter name and its JSON parameters,
-// plus an independent reading of when it holds (the property's "its condition holds for the message").
-type cond struct {
-	filter string
-	params string // JSON members, with trailing ", "
-	holds  func(m *msgSpec, response bool) bool
+// condSpec is one filter condition as its JSON body gives it (see lean/Martian/Model/ConfigCond.lean).
+type condSpec struct {
+	kind       byte // m method, u url, q querystring, h header, c cookie, p port (a = decimal port)
+	a, b, c, d string
 }
 
-// msgSpec describes one exchange: the request and (for responses) the response attached to it.
-type msgSpec struct {
-	method, scheme, host, path int
-	query, reqHdr, reqCk       int // bit sets over the tables below
-	resHdr, resCk              int
+var filterNames = map[byte]string{'m': "method.Filter", 'u': "url.Filter", 'q': "querystring.Filter", 'h': "header.Filter", 'c': "cookie.Filter", 'p': "port.Filter"}
+
+func (c *condSpec) filter() string { return filterNames[c.kind] }
+
+func (c *condSpec) token() string {
+	switch c.kind {
+	case 'm':
+		return "m:" + core.HexS(c.a)
+	case 'p':
+		return "p:" + c.a
+	case 'u':
+		return "u:" + core.HexS(c.a) + ":" + core.HexS(c.b) + ":" + core.HexS(c.c) + ":" + core.HexS(c.d)
+	}
+	return string(c.kind) + ":" + core.HexS(c.a) + ":" + core.HexS(c.b)
 }
+
+func jstr(s string) string {
+	b, _ := json.Marshal(s)
+	return string(b)
+}
+
+// params: the JSON members of the filter body (with trailing ", ").
+func (c *condSpec) params() string {
+	switch c.kind {
+	case 'm':
+		return `"method": ` + jstr(c.a) + `, `
+	case 'p':
+		return `"port": ` + c.a + `, `
+	case 'u':
+		s := ""
+		for i, kv := range [][2]string{{"scheme", c.a}, {"host", c.b}, {"path", c.c}, {"query", c.d}} {
+			if kv[1] != "" || (i+len(c.b))%5 == 0 { // an empty segment is sometimes spelled out
+				s += `"` + kv[0] + `": ` + jstr(kv[1]) + `, `
+			}
+		}
+		return s
+	}
+	return `"name": ` + jstr(c.a) + `, "value": ` + jstr(c.b) + `, `
+}
+
+func isASCII(s string) bool {
+	for i := 0; i < len(s); i++ {
+		if s[i] >= 0x80 {
+			return false
+		}
+	}
+	return true
+}
+
+func validToken(s string) bool {
+	if s == "" {
+		return false
+	}
+	for i := 0; i < len(s); i++ {
+		c := s[i]
+		if !(c >= '0' && c <= '9' || c >= 'a' && c <= 'z' || c >= 'A' && c <= 'Z' || strings.IndexByte("!#$%&'*+-.^_`|~", c) >= 0) {
+			return false
+		}
+	}
+	return true
+}
+
+// parseCondTok: the token form, or (legacy corpus) an index into legacyPool. Parameters must be
+// valid UTF-8 (they travel through a JSON string), methods ASCII (the model's EqualFold is ASCII),
+// and a header condition must not name the probes' own trace header.
+func parseCondTok(s string) (*condSpec, bool) {
+	if i, err := strconv.Atoi(s); err == nil {
+		if i < 0 || i >= len(legacyPool) {
+			return nil, false
+		}
+		c := legacyPool[i]
+		return &c, true
+	}
+	f := strings.Split(s, ":")
+	if len(f[0]) != 1 {
+		return nil, false
+	}
+	if f[0] == "p" { // port.Filter: a decimal int64
+		if len(f) != 2 {
+			return nil, false
+		}
+		if i, err := strconv.ParseInt(f[1], 10, 64); err != nil || strconv.FormatInt(i, 10) != f[1] {
+			return nil, false
+		}
+		return &condSpec{kind: 'p', a: f[1]}, true
+	}
+	c := &condSpec{kind: f[0][0]}
+	want := map[byte]int{'m': 2, 'u': 5, 'q': 3, 'h': 3, 'c': 3}[c.kind]
+	if want == 0 || len(f) != want {
+		return nil, false
+	}
+	dst := []*string{&c.a, &c.b, &c.c, &c.d}
+	for i, x := range f[1:] {
+		b, ok := core.Unhex(x)
+		if !ok || !utf8.Valid(b) {
+			return nil, false
+		}
+		*dst[i] = string(b)
+	}
+	if c.kind == 'm' && !isASCII(c.a) {
+		return nil, false
+	}
+	if c.kind == 'h' && http.CanonicalHeaderKey(c.a) == traceHeader {
+		return nil, false
+	}
+	return c, true
+}
+
+var legacyPool = []condSpec{
+	0: {kind: 'm', a: "POST"}, 1: {kind: 'm', a: "get"},
+	2: {kind: 'u', a: "https"}, 3: {kind: 'u', b: "a.example"}, 4: {kind: 'u', c: "/p1"}, 5: {kind: 'u', b: "b.example", c: "/p2"}, 6: {kind: 'u', d: "k1=v1"},
+	7: {kind: 'q', a: "k1", b: "v1"}, 8: {kind: 'q', a: "k2"}, 9: {kind: 'q', a: "k1", b: "v2"},
+	10: {kind: 'h', a: "X-A", b: "1"}, 11: {kind: 'h', a: "x-a", b: "2"}, 12: {kind: 'h', a: "X-B", b: "1"},
+	13: {kind: 'c', a: "c1", b: "v1"}, 14: {kind: 'c', a: "c1"}, 15: {kind: 'c', a: "c2", b: "v1"},
+	16: {kind: 'u'}, 17: {kind: 'm', a: ""},
+}
+
+// message: the part of one exchange the matchers read (lean: Config.Message).
+type message struct {
+	method, scheme, host, path, rawQuery string
+	reqHost                              string
+	reqCL                                int64
+	reqTE                                []string // nil vs empty matters
+	reqHdr, reqCk                        [][2]string
+	resCL                                int64
+	resTE                                []string
+	resHdr, resCk                        [][2]string
+}
+
+func pairsTok(ps [][2]string) string {
+	if len(ps) == 0 {
+		return "-"
+	}
+	s := make([]string, len(ps))
+	for i, p := range ps {
+		s[i] = core.HexS(p[0]) + ":" + core.HexS(p[1])
+	}
+	return strings.Join(s, ",")
+}
+
+func teTok(te []string) string {
+	if te == nil {
+		return "n"
+	}
+	if len(te) == 0 {
+		return "e"
+	}
+	s := make([]string, len(te))
+	for i, x := range te {
+		s[i] = core.HexS(x)
+	}
+	return strings.Join(s, ",")
+}
+
+func (m *message) token() string {
+	return strings.Join([]string{core.HexS(m.method), core.HexS(m.scheme), core.HexS(m.host), core.HexS(m.path), core.HexS(m.rawQuery),
+		core.HexS(m.reqHost), strconv.FormatInt(m.reqCL, 10), teTok(m.reqTE), pairsTok(m.reqHdr), pairsTok(m.reqCk),
+		strconv.FormatInt(m.resCL, 10), teTok(m.resTE), pairsTok(m.resHdr), pairsTok(m.resCk)}, ";")
+}
+
+func parsePairsTok(s string) ([][2]string, bool) {
+	if s == "-" {
+		return nil, true
+	}
+	var out [][2]string
+	for _, kv := range strings.Split(s, ",") {
+		f := strings.Split(kv, ":")
+		if len(f) != 2 {
+			return nil, false
+		}
+		k, ok1 := core.Unhex(f[0])
+		v, ok2 := core.Unhex(f[1])
+		if !ok1 || !ok2 {
+			return nil, false
+		}
+		out = append(out, [2]string{string(k), string(v)})
+	}
+	return out, true
+}
+
+func parseTETok(s string) ([]string, bool) {
+	switch s {
+	case "n":
+		return nil, true
+	case "e":
+		return []string{}, true
+	}
+	var out []string
+	for _, x := range strings.Split(s, ",") {
+		b, ok := core.Unhex(x)
+		if !ok {
+			return nil, false
+		}
+		out = append(out, string(b))
+	}
+	return out, true
+}
+
+// hostPortOK: URL.Host has no port, or exactly one ':' followed by a decimal port (port.Filter returns
+// an error of its own for anything else; such hosts are outside the domain of the check).
+func hostPortOK(h string) bool {
+	i := strings.IndexByte(h, ':')
+	if i < 0 {
+		return true
+	}
+	p := h[i+1:]
+	if p == "" || len(p) > 5 {
+		return false
+	}
+	for _, c := range p {
+		if c < '0' || c > '9' {
+			return false
+		}
+	}
+	return true
+}
+
+func sameCookies(cs []*http.Cookie, want [][2]string) bool {
+	if len(cs) != len(want) {
+		return false
+	}
+	for i, c := range cs {
+		if c.Name != want[i][0] || c.Value != want[i][1] {
+			return false
+		}
+	}
+	return true
+}
+
+// parseMessage reads the token and checks that it is one the harness can stand behind: ASCII method,
+// no pre-set trace header, and the cookie lists are what net/http parses out of the header lines.
+func parseMessage(tok string) (*message, bool) {
+	f := strings.Split(tok, ";")
+	if len(f) != 14 {
+		return nil, false
+	}
+	m := &message{}
+	for i, dst := range []*string{&m.method, &m.scheme, &m.host, &m.path, &m.rawQuery, &m.reqHost} {
+		b, ok := core.Unhex(f[i])
+		if !ok {
+			return nil, false
+		}
+		*dst = string(b)
+	}
+	var err1, err2 error
+	var ok [6]bool
+	m.reqCL, err1 = strconv.ParseInt(f[6], 10, 64)
+	m.reqTE, ok[0] = parseTETok(f[7])
+	m.reqHdr, ok[1] = parsePairsTok(f[8])
+	m.reqCk, ok[2] = parsePairsTok(f[9])
+	m.resCL, err2 = strconv.ParseInt(f[10], 10, 64)
+	m.resTE, ok[3] = parseTETok(f[11])
+	m.resHdr, ok[4] = parsePairsTok(f[12])
+	m.resCk, ok[5] = parsePairsTok(f[13])
+	if err1 != nil || err2 != nil || ok != [6]bool{true, true, true, true, true, true} || !isASCII(m.method) || !hostPortOK(m.host) {
+		return nil, false
+	}
+	for _, h := range append(append([][2]string{}, m.reqHdr...), m.resHdr...) {
+		if http.CanonicalHeaderKey(h[0]) == traceHeader {
+			return nil, false
+		}
+	}
+	req, res := m.build()
+	if !sameCookies(req.Cookies(), m.reqCk) || !sameCookies(res.Cookies(), m.resCk) {
+		return nil, false
+	}
+	return m, true
+}
+
+// build constructs the real messages (URL fields are stored directly, nothing is re-parsed).
+func (m *message) build() (*http.Request, *http.Response) {
+	req := &http.Request{
+		Method: m.method,
+		URL:    &url.URL{Scheme: m.scheme, Host: m.host, Path: m.path, RawQuery: m.rawQuery},
+		Proto:  "HTTP/1.1", ProtoMajor: 1, ProtoMinor: 1,
+		Header:           http.Header{},
+		Host:             m.reqHost,
+		ContentLength:    m.reqCL,
+		TransferEncoding: m.reqTE,
+	}
+	for _, kv := range m.reqHdr {
+		req.Header.Add(kv[0], kv[1])
+	}
+	res := proxyutil.NewResponse(200, nil, req)
+	res.ContentLength = m.resCL
+	res.TransferEncoding = m.resTE
+	for _, kv := range m.resHdr {
+		res.Header.Add(kv[0], kv[1])
+	}
+	return req, res
+}
+
+// ---- the independent reading of "the condition holds for the message" ----
+
+// specQuery: the query parameters of a raw query, read independently of url.ParseQuery: pieces between
+// '&'; a piece with ';' or without a key is not a parameter; '+' is a space, %XX a byte; a piece whose
+// key or value has a broken escape is not a parameter.
+func specQuery(raw string) [][2]string {
+	var out [][2]string
+	for _, piece := range strings.Split(raw, "&") {
+		if piece == "" || strings.Contains(piece, ";") {
+			continue
+		}
+		kv := strings.SplitN(piece, "=", 2)
+		if len(kv) == 1 {
+			kv = append(kv, "")
+		}
+		k, err1 := url.PathUnescape(strings.ReplaceAll(kv[0], "+", " "))
+		v, err2 := url.PathUnescape(strings.ReplaceAll(kv[1], "+", " "))
+		if err1 != nil || err2 != nil {
+			continue
+		}
+		out = append(out, [2]string{k, v})
+	}
+	return out
+}
+
+// specHost: host patterns whose labels are literal or exactly "*" (one label), on hosts without empty
+// labels. known=false outside that domain (partial-label globs, leading dots): the statement does not
+// say what such patterns mean; there the model is compared with the code, the oracle abstains.
+func specHost(host, pat string) (match, known bool) {
+	if host == "" {
+		return false, true
+	}
+	if host == pat {
+		return true, true
+	}
+	hl, pl := strings.Split(host, "."), strings.Split(pat, ".")
+	for _, l := range hl {
+		if l == "" || strings.Contains(l, "*") {
+			return false, false
+		}
+	}
+	for _, l := range pl {
+		if l != "*" && strings.Contains(l, "*") {
+			return false, false
+		}
+	}
+	if len(hl) != len(pl) {
+		return false, true
+	}
+	for i := range hl {
+		if pl[i] != "*" && pl[i] != hl[i] {
+			return false, true
+		}
+	}
+	return true, true
+}
+
+func asciiUpper(s string) string {
+	b := []byte(s)
+	for i, c := range b {
+		if c >= 'a' && c <= 'z' {
+			b[i] = c - 32
+		}
+	}
+	return string(b)
+}
+
+// specHeaders: the header fields of the message as the proxy sees them: the explicit header lines plus
+// Host (requests), Content-Length (when positive) and Transfer-Encoding.
+func (m *message) specHeaders(response bool) [][2]string {
+	var out [][2]string
+	hdr, cl, te, host := m.reqHdr, m.reqCL, m.reqTE, m.reqHost
+	if response {
+		hdr, cl, te, host = m.resHdr, m.resCL, m.resTE, ""
+	}
+	for _, kv := range hdr {
+		switch asciiUpper(kv[0]) {
+		case "HOST", "CONTENT-LENGTH", "TRANSFER-ENCODING": // carried by the dedicated fields
+		default:
+			out = append(out, kv)
+		}
+	}
+	if host != "" {
+		out = append(out, [2]string{"Host", host})
+	}
+	if cl > 0 {
+		out = append(out, [2]string{"Content-Length", strconv.FormatInt(cl, 10)})
+	}
+	for _, t := range te {
+		out = append(out, [2]string{"Transfer-Encoding", t})
+	}
+	return out
+}
+
+// holdsSpec: does the condition hold for the request (or the response) of the exchange?
+func holdsSpec(c *condSpec, m *message, response bool) (holds, known bool) {
+	switch c.kind {
+	case 'm':
+		return asciiUpper(c.a) == asciiUpper(m.method), true
+	case 'u':
+		if c.a != "" && c.a != m.scheme || c.c != "" && c.c != m.path || c.d != "" && c.d != m.rawQuery {
+			return false, true
+		}
+		if c.b == "" {
+			return true, true
+		}
+		return specHost(m.host, c.b)
+	case 'q':
+		for _, kv := range specQuery(m.rawQuery) {
+			if kv[0] == c.a && (c.b == "" || kv[1] == c.b) {
+				return true, true
+			}
+		}
+		return false, true
+	case 'h':
+		if !validToken(c.a) {
+			return false, false
+		}
+		for _, kv := range m.specHeaders(response) {
+			if !validToken(kv[0]) {
+				return false, false
+			}
+			if asciiUpper(kv[0]) == asciiUpper(c.a) && kv[1] == c.b {
+				return true, true
+			}
+		}
+		return false, true
+	case 'p':
+		// the port of the request URL, explicit or the scheme's default
+		port := map[string]string{"http": "80", "https": "443"}[m.scheme]
+		if port == "" {
+			port = "0"
+		}
+		if i := strings.IndexByte(m.host, ':'); i >= 0 {
+			port = strings.TrimLeft(m.host[i+1:], "0")
+			if port == "" {
+				port = "0"
+			}
+		}
+		return port == c.a, true
+	case 'c':
+		cks := m.reqCk
+		if response {
+			cks = m.resCk
+		}
+		for _, kv := range cks {
+			if kv[0] == c.a && (c.b == "" || kv[1] == c.b) {
+				return true, true
+			}
+		}
+		return false, true
+	}
+	return false, false
+}
+
+// ---- legacy message specs (9 small integers; corpus files written before messages were concrete) ----
 
 var (
 	methods  = []string{"GET", "POST", "PUT"}
@@ -34,11 +478,7 @@ var (
 	ckKVs    = [][2]string{{"c1", "v1"}, {"c1", "v2"}, {"c2", "v1"}}
 )
 
-func (m *msgSpec) String() string {
-	return fmt.Sprintf("%d,%d,%d,%d,%d,%d,%d,%d,%d", m.method, m.scheme, m.host, m.path, m.query, m.reqHdr, m.reqCk, m.resHdr, m.resCk)
-}
-
-func parseMsg(s string) (*msgSpec, bool) {
+func legacyMessage(s string) (*message, bool) {
 	f := strings.Split(s, ",")
 	if len(f) != 9 {
 		return nil, false
@@ -52,110 +492,38 @@ func parseMsg(s string) (*msgSpec, bool) {
 		}
 		v[i] = n
 	}
-	return &msgSpec{v[0], v[1], v[2], v[3], v[4], v[5], v[6], v[7], v[8]}, true
+	m := &message{method: methods[v[0]], scheme: schemes[v[1]], host: hosts[v[2]], path: paths[v[3]], reqHost: hosts[v[2]]}
+	pick := func(set int, table [][2]string) (out [][2]string) {
+		for i, kv := range table {
+			if set&(1<<i) != 0 {
+				out = append(out, kv)
+			}
+		}
+		return
+	}
+	var q []string
+	for _, kv := range pick(v[4], queryKVs) {
+		q = append(q, kv[0]+"="+kv[1])
+	}
+	m.rawQuery = strings.Join(q, "&")
+	m.reqHdr, m.reqCk = pick(v[5], hdrKVs), pick(v[6], ckKVs)
+	m.resHdr, m.resCk = pick(v[7], hdrKVs), pick(v[8], ckKVs)
+	m.addCookieHeaders()
+	return m, true
 }
 
-func (m *msgSpec) rawQuery() string {
-	var p []string
-	for i, kv := range queryKVs {
-		if m.query&(1<<i) != 0 {
-			p = append(p, kv[0]+"="+kv[1])
-		}
-	}
-	return strings.Join(p, "&")
-}
-
-func has(set int, table [][2]string, k, v string) bool {
-	for i, kv := range table {
-		if set&(1<<i) != 0 && kv[0] == k && (v == "" || kv[1] == v) {
-			return true
-		}
-	}
-	return false
-}
-
-// build constructs the real messages.
-func (m *msgSpec) build() (*http.Request, *http.Response) {
-	u := schemes[m.scheme] + "://" + hosts[m.host] + paths[m.path]
-	if q := m.rawQuery(); q != "" {
-		u += "?" + q
-	}
-	req, err := http.NewRequest(methods[m.method], u, nil)
-	if err != nil {
-		panic(err)
-	}
-	var cks []string
-	for i, kv := range hdrKVs {
-		if m.reqHdr&(1<<i) != 0 {
-			req.Header.Add(kv[0], kv[1])
-		}
-	}
-	for i, kv := range ckKVs {
-		if m.reqCk&(1<<i) != 0 {
+// addCookieHeaders writes the Cookie / Set-Cookie lines that carry m.reqCk / m.resCk.
+func (m *message) addCookieHeaders() {
+	if len(m.reqCk) > 0 {
+		var cks []string
+		for _, kv := range m.reqCk {
 			cks = append(cks, kv[0]+"="+kv[1])
 		}
+		m.reqHdr = append(m.reqHdr, [2]string{"Cookie", strings.Join(cks, "; ")})
 	}
-	if len(cks) > 0 {
-		req.Header.Set("Cookie", strings.Join(cks, "; "))
+	for _, kv := range m.resCk {
+		m.resHdr = append(m.resHdr, [2]string{"Set-Cookie", kv[0] + "=" + kv[1]})
 	}
-	res := proxyutil.NewResponse(200, nil, req)
-	for i, kv := range hdrKVs {
-		if m.resHdr&(1<<i) != 0 {
-			res.Header.Add(kv[0], kv[1])
-		}
-	}
-	for i, kv := range ckKVs {
-		if m.resCk&(1<<i) != 0 {
-			res.Header.Add("Set-Cookie", kv[0]+"="+kv[1])
-		}
-	}
-	return req, res
-}
-
-func hdrSet(m *msgSpec, response bool) int {
-	if response {
-		return m.resHdr
-	}
-	return m.reqHdr
-}
-func ckSet(m *msgSpec, response bool) int {
-	if response {
-		return m.resCk
-	}
-	return m.reqCk
-}
-
-// condPool: conditions over the five filters. URL, method and query conditions look at the request
-// of the exchange (also for responses); header and cookie conditions look at the message itself.
-var condPool = []cond{
-	0:  {"method.Filter", `"method": "POST", `, func(m *msgSpec, _ bool) bool { return methods[m.method] == "POST" }},
-	1:  {"method.Filter", `"method": "get", `, func(m *msgSpec, _ bool) bool { return methods[m.method] == "GET" }},
-	2:  {"url.Filter", `"scheme": "https", `, func(m *msgSpec, _ bool) bool { return schemes[m.scheme] == "https" }},
-	3:  {"url.Filter", `"host": "a.example", `, func(m *msgSpec, _ bool) bool { return hosts[m.host] == "a.example" }},
-	4:  {"url.Filter", `"path": "/p1", `, func(m *msgSpec, _ bool) bool { return paths[m.path] == "/p1" }},
-	5:  {"url.Filter", `"host": "b.example", "path": "/p2", `, func(m *msgSpec, _ bool) bool { return hosts[m.host] == "b.example" && paths[m.path] == "/p2" }},
-	6:  {"url.Filter", `"query": "k1=v1", `, func(m *msgSpec, _ bool) bool { return m.query == 1 }},
-	7:  {"querystring.Filter", `"name": "k1", "value": "v1", `, func(m *msgSpec, _ bool) bool { return has(m.query, queryKVs, "k1", "v1") }},
-	8:  {"querystring.Filter", `"name": "k2", `, func(m *msgSpec, _ bool) bool { return has(m.query, queryKVs, "k2", "") }},
-	9:  {"querystring.Filter", `"name": "k1", "value": "v2", `, func(m *msgSpec, _ bool) bool { return has(m.query, queryKVs, "k1", "v2") }},
-	10: {"header.Filter", `"name": "X-A", "value": "1", `, func(m *msgSpec, r bool) bool { return has(hdrSet(m, r), hdrKVs, "X-A", "1") }},
-	11: {"header.Filter", `"name": "x-a", "value": "2", `, func(m *msgSpec, r bool) bool { return has(hdrSet(m, r), hdrKVs, "X-A", "2") }},
-	12: {"header.Filter", `"name": "X-B", "value": "1", `, func(m *msgSpec, r bool) bool { return has(hdrSet(m, r), hdrKVs, "X-B", "1") }},
-	13: {"cookie.Filter", `"name": "c1", "value": "v1", `, func(m *msgSpec, r bool) bool { return has(ckSet(m, r), ckKVs, "c1", "v1") }},
-	14: {"cookie.Filter", `"name": "c1", `, func(m *msgSpec, r bool) bool { return has(ckSet(m, r), ckKVs, "c1", "") }},
-	15: {"cookie.Filter", `"name": "c2", "value": "v1", `, func(m *msgSpec, r bool) bool { return has(ckSet(m, r), ckKVs, "c2", "v1") }},
-	16: {"url.Filter", ``, func(m *msgSpec, _ bool) bool { return true }},
-	17: {"method.Filter", `"method": "", `, func(m *msgSpec, _ bool) bool { return false }},
-}
-
-func (m *msgSpec) truths(response bool) []int {
-	var out []int
-	for i, c := range condPool {
-		if c.holds(m, response) {
-			out = append(out, i)
-		}
-	}
-	return out
 }
 
 func intsToken(xs []int) string {
